@@ -831,8 +831,13 @@ pub fn check_mut(fam: &Fam, c: &MutCase) -> Verdict {
                 ));
             }
             if a.overrun_last && extra {
+                // The recorded findings (NOTES 7, 8) are: a body-less message kind, or a typed map `Clear`, decoded
+                // although the frame claims more bytes than follow. Any other kind decoded from an overrunning
+                // frame is a different violation and carries its kind in the signature.
+                let k = run.msgs[intact].0.kind();
+                let recorded = k.ends_with("/Clear") || matches!(k.as_str(), "Link" | "Sync" | "Unlink");
                 fails.push((
-                    format!("overrun-msg:{}", fam.name),
+                    if recorded { format!("overrun-msg:{}", fam.name) } else { format!("overrun-msg:{}@{}", fam.name, k) },
                     format!("the last frame claims more bytes than follow but was decoded as {}", short(&run.msgs[intact].0)),
                 ));
             }
